@@ -51,6 +51,34 @@ def _nm(repo: Repo, ci: ClassInfo, name: str) -> ast.FunctionDef:
     return inline.normalize(repo, ci, repo.own_method(ci, name))
 
 
+def _definition(repo: Repo, ci: ClassInfo, e: ast.expr, depth: int = 0):
+    """The expression a class-level / module-level name is bound to; a dict comprehension over the items of another such table
+    (`{bits: fmt for fmt, bits in _BITS.items()}`) is written out as the dict display it denotes."""
+    from .. import inline
+    import copy as _copy
+    try:
+        d = inline.definition_of(repo, ci, ci.file, e)
+        if d is None and isinstance(e, ast.Name) and e.id in ci.assigns:
+            d = ci.assigns[e.id]              # a bare name inside the class body
+    except Exception:
+        return None
+    if isinstance(d, ast.DictComp) and len(d.generators) == 1 and not d.generators[0].ifs and depth < 3:
+        g = d.generators[0]
+        it = g.iter
+        if isinstance(it, ast.Call) and isinstance(it.func, ast.Attribute) and it.func.attr == "items" and not it.args \
+                and isinstance(g.target, ast.Tuple) and len(g.target.elts) == 2 and all(isinstance(x, ast.Name) for x in g.target.elts):
+            src = it.func.value if isinstance(it.func.value, ast.Dict) else _definition(repo, ci, it.func.value, depth + 1)
+            if isinstance(src, ast.Dict) and all(k is not None for k in src.keys):
+                kn, vn = g.target.elts[0].id, g.target.elts[1].id
+                keys, vals = [], []
+                for k, v in zip(src.keys, src.values):
+                    env = {kn: k, vn: v}
+                    keys.append(inline._Rename(env).visit(_copy.deepcopy(d.key)))
+                    vals.append(inline._Rename(env).visit(_copy.deepcopy(d.value)))
+                return ast.copy_location(ast.Dict(keys=keys, values=vals), d)
+    return d
+
+
 def _sampler(repo: Repo):
     s = repo.cls("Sampler", module=SAMPLER)
     w = repo.cls("_StructWriter", module=SAMPLER)
@@ -145,7 +173,12 @@ def instrument_record(repo: Repo, rep, P: str, tables):
     rep.func("rv.modules.sampler.Sampler.load_instrument")
     rep.count("instrument_writer_slots", len(ws), 35)
     rep.count("instrument_reader_slots", len(rs), 35)
-    if len(ws) != len(rs):
+    if len(ws) != len(rs) and any(s_.kind == "unknown" for s_ in ws + rs):
+        unk = [s_.expr for s_ in ws + rs if s_.kind == "unknown"]
+        rep.inconclusive(f"{P}.R1", wcon, f"{len(ws)} writer slots / {len(rs)} reader slots; not read: {unk[:3]}",
+                         "a call on the struct helper is not a field access this rule reads: the field count is not decided", f"{rel}:{wfn.lineno}")
+        return          # slot-by-slot comparison would be misaligned
+    elif len(ws) != len(rs):
         rep.violation(f"{P}.R1", wcon, f"{len(ws)} writer slots / {len(rs)} reader slots",
                       "writer and reader of the instrument record have a different number of fields", f"{rel}:{wfn.lineno}")
     woff, roff = _offsets(ws), _offsets(rs)
@@ -359,7 +392,12 @@ def sample_record(repo: Repo, rep, P: str, tables):
     wcon, rcon = f"{rel}:Sampler.sample_chunks", f"{rel}:Sampler.load_sample_meta"
     rep.count("sample_writer_slots", len(ws), 11)
     rep.count("sample_reader_slots", len(rs), 11)
-    if len(ws) != len(rs):
+    if len(ws) != len(rs) and any(s_.kind == "unknown" for s_ in ws + rs):
+        unk = [s_.expr for s_ in ws + rs if s_.kind == "unknown"]
+        rep.inconclusive(f"{P}.R2", wcon, f"{len(ws)} / {len(rs)} slots; not read: {unk[:3]}",
+                         "a call on the struct helper is not a field access this rule reads: the field count is not decided", f"{rel}:{wfn.lineno}")
+        return          # slot-by-slot comparison would be misaligned
+    elif len(ws) != len(rs):
         rep.violation(f"{P}.R2", wcon, f"{len(ws)} / {len(rs)} slots", "sample record field count differs", f"{rel}:{wfn.lineno}")
     param = [a.arg for a in wfn.args.args if a.arg not in ("self",)]
     sname = param[1] if len(param) > 1 else "sample"
@@ -551,6 +589,10 @@ def _flag_byte(repo, rep, P, samp, wfn, rfn):
                 checks.append(("loop_type", res(sel), "loop_type", loop_w))
             elif fld == "loop_sustain":
                 checks.append(("loop_sustain", res(v), "loop_sustain", 1))
+            elif fld == "format" and isinstance(v, ast.Subscript) and isinstance(v.value, (ast.Name, ast.Attribute)) \
+                    and isinstance(_definition(repo, samp, v.value), ast.Dict):
+                checks.append(("format", res(v.slice), "map(", None))
+                rmap_node = _definition(repo, samp, v.value)        # a class-level / module-level table of the same shape
             elif fld == "format" and isinstance(v, ast.Subscript) and isinstance(v.value, ast.Dict):
                 checks.append(("format", res(v.slice), "map(", None))
                 rmap_node = v.value
@@ -829,6 +871,20 @@ def envelope_chunk(repo: Repo, rep, P: str, tables):
         pieces = []
 
         def split(v):
+            if isinstance(v, ast.Call) and isinstance(v.func, ast.Attribute) and v.func.attr == "join" and isinstance(v.func.value, ast.Constant) \
+                    and v.func.value.value == b"" and len(v.args) == 1 and isinstance(v.args[0], ast.Call) \
+                    and norm(v.args[0].func).split(".")[-1] == "chain" and not v.args[0].keywords:
+                # b"".join(chain((a, b), points)): the pieces of the displays, then the joined generator
+                for a in v.args[0].args:
+                    a2 = wdefs.get(a.id) if isinstance(a, ast.Name) and a.id in wdefs else a
+                    if isinstance(a2, (ast.Tuple, ast.List)) and not any(isinstance(x, ast.Starred) for x in a2.elts):
+                        for x in a2.elts:
+                            split(x)
+                    elif isinstance(a2, (ast.GeneratorExp, ast.ListComp)):
+                        pieces.append(ast.Call(func=ast.Attribute(value=ast.Constant(value=b""), attr="join", ctx=ast.Load()), args=[a2], keywords=[]))
+                    else:
+                        pieces.append(a)
+                return
             if isinstance(v, ast.BinOp) and isinstance(v.op, ast.Add):
                 split(v.left)
                 split(v.right)
@@ -1174,7 +1230,7 @@ def chunk_dispatch(repo: Repo, rep, P: str):
     inst = instance_classes(repo, samp)
     from .. import inline
     lc = _nm(repo, samp, "load_chunk")
-    wf = _nm(repo, samp, "specialized_iff_chunks")
+    wf = inline.normalize(repo, samp, repo.own_method(samp, "specialized_iff_chunks"), aliases=True)     # `envs = self.effect_control_envelopes` read through
     rep.func("rv.modules.sampler.Sampler.specialized_iff_chunks / load_chunk")
     # writer: which attributes' .chunks() are yielded
     written = []
@@ -1302,6 +1358,9 @@ def slot_index_rule(repo: Repo, rep, P: str):
                 detail = f"enumerate({src}, {start}) → sample_chunks({', '.join(norm(a) for a in calls[0].args) if calls else '?'})"
     if ok:
         rep.ok(f"{P}.R2", con, "for i, sample in enumerate(self.samples): … self.sample_chunks(i, sample)", "chunk numbers follow the slot index")
+    elif not detail:
+        rep.inconclusive(f"{P}.R2", con, norm(fn)[:160], "how the sample chunks are numbered (no enumerate loop that calls sample_chunks) is not recognised",
+                         f"{rel}:{fn.lineno}")
     else:
         rep.violation(f"{P}.R2", con, detail or norm(fn)[:160],
                       "sample chunks must be numbered by the sample's index in self.samples itself; enumerating a filtered/compacted "
@@ -1338,7 +1397,9 @@ def legacy_upgrade_rule(repo: Repo, rep, P: str):
     """_upgrade_envelopes copies each legacy field into the field of the same name on the same envelope."""
     samp, W, R = _sampler(repo)
     rel = samp.file.rel
-    fn = _nm(repo, samp, "_upgrade_envelopes")
+    from .. import inline as _inl
+    # private helpers of the envelope objects (`self.volume_envelope._restore_legacy_settings()`) are read through as well
+    fn = _inl.normalize(repo, samp, repo.own_method(samp, "_upgrade_envelopes"), aliases=True, receivers=instance_classes(repo, samp))
     con = f"{rel}:Sampler._upgrade_envelopes"
     n = 0
     for a in walk_no_nested(fn):
